@@ -9,7 +9,13 @@ canceller) the form is tape-chosen among the documented ones: errback(exception)
 errback() from inside an except block.  Deferred debugging (defer.setDebugging) is a per-run configuration value (on
 in a quarter of the runs, restored afterwards).  The class of every Deferred is tape-chosen too (per-run knob: all plain
 Deferreds / mixed / all subclass instances; the subclasses - a direct one and a subclass of it with its own constructor -
-override nothing of the protocol), so a plain Deferred waits on a subclass instance and the other way round.  Operations stay enabled after
+override nothing of the protocol), so a plain Deferred waits on a subclass instance and the other way round.
+Results do not only come from the caller: the operation "chain" hands a feeder Deferred (a new one, or an earlier feeder that
+fans out to one more target) to chainDeferred() with any Deferred of the pool as the target - the documented shorthand for
+feeder.addCallbacks(target.callback, target.errback) - and feeders are fired / cancelled like inner ones, so a Deferred the outer
+waits on gets its result (or a second one, or the one ignored late one) from another Deferred's callback list, and a forwarded
+cancel meets a Deferred that some feeder is chained to.  The canceller callable comes in a tape-chosen form {function, bound
+method, functools.partial, callable instance, callable collection} (per-run knob: all functions / any form).  Operations stay enabled after
 the Deferred has fired (that is the point: second results, late results after a
 canceller-less cancel, cancel of a fired Deferred).  Oracle: the reference state
 machine in models/deferred.py (one result; suppress-one-after-cancel; canceller
@@ -18,6 +24,8 @@ cancel of a fired, waiting Deferred forwards to the one it waits on), compared
 after every operation: AlreadyCalledError raised or not, canceller call counts,
 recorded callback inputs, result / pending callbacks of every Deferred.
 """
+import functools
+
 from twisted.internet import defer
 from twisted.python.failure import Failure
 
@@ -27,8 +35,8 @@ from props._defer_util import Boom, absres, real_view
 ID = "C03"
 ENGINE = "tasks"
 LEVEL = "exploration"
-TECHNIQUE = ("deterministic simulation: seeded histories of callback/errback/cancel/chain-to-inner/fire-inner operations on real "
-             "Deferreds vs a reference state machine, compared after every operation")
+TECHNIQUE = ("deterministic simulation: seeded histories of callback/errback/cancel/chain-to-inner/fire-inner/chainDeferred-feeder operations "
+             "on real Deferreds vs a reference state machine, compared after every operation")
 QUICK_RUNS = 60000
 TWIN_P = 0.08   # this share of the runs drives two independent instances of the scenario one after the other (detsim.runner._run_scenario)
 BATCH = 800
@@ -40,9 +48,29 @@ RULE = ("run = history of 2..10 tape-chosen operations {callback, errback, cance
         "Deferred debugging (defer.setDebugging) is on in a quarter of the runs (per-run knob, restored in a finally and in cleanup()); "
         "every Deferred is an instance of a tape-chosen class {Deferred, a direct application subclass, a subclass of that with its own "
         "constructor and attribute}; per-run knob classes in {plain, mixed, subclasses}, none of the subclasses overrides anything of the protocol; "
+        "operation chain (per-run weight w_chain in {2, 0, 4}): feeder.chainDeferred(target) with a new feeder Deferred (at most 2; own "
+        "canceller and class) or an earlier one (possibly fired: the target is fed at once) and a target among the inners, the outer and "
+        "earlier feeders; feeders are fired and cancelled by the fire-inner / cancel-inner operations; the reference machine treats the "
+        "chain entry as the documented addCallbacks(target.callback, target.errback) and never as a waiting relation; "
+        "the canceller callable has a tape-chosen form {function, bound method, functools.partial, callable instance, non-empty callable "
+        "collection} (per-run knob all-functions / any) plus, in the FALSY_CANCELLER_P share of the runs, an EMPTY callable collection "
+        "(truth value False - precondition of the genuine defect listed in MUTANTS; verdicts of such runs carry '@falsy-canceller'); "
         "non-trivial = a cancel was issued AND (a result was offered to an already-fired Deferred OR the outer waited on an inner); "
         "abstract_states = distinct (canceller kinds, history) of length <= 8 reached")
-ASSUMPTIONS = ["operations are issued from outside callbacks (cancellers fire only the Deferred they are given)",
+ASSUMPTIONS = ["operations are issued from outside callbacks (cancellers fire only the Deferred they are given); the one exception is the "
+               "chainDeferred entry of a feeder, which offers the feeder's result to its target from inside the feeder's callback list - "
+               "feeders are never returned from callbacks and feed only Deferreds created before them, so no Deferred is entered while one "
+               "of its own callbacks executes",
+               "chainDeferred(d) is what its documentation says, a shorthand for addCallbacks(d.callback, d.errback): the result reaches "
+               "the target as an ordinary callback/errback (accepted, or ignored as the one late result, or refused with AlreadyCalledError, "
+               "which then is the feeder's current failure) and the feeder continues with None; it is not 'waiting on' in the sense of the "
+               "statement, so cancel() of the target never touches the feeder and a cancel forwarded to the target stops there",
+               "'its canceller' is whatever callable was given to the constructor (documented: 'a callable'); only None means 'without a "
+               "canceller' - the truth value of the callable plays no part in the statement",
+               "a canceller that calls cancel() again on the Deferred it was given (directly or through a Deferred waiting on it) is not "
+               "generated: the statement taken per cancel() call demands one canceller call for every cancel() of a still unfired Deferred, "
+               "which is what the tree does (n nested cancels = n calls, unbounded recursion if the canceller never stops); read 'once per "
+               "Deferred' it would demand a re-entrancy guard the documentation does not promise - no verdict either way",
                "the statement does not depend on how the failure is handed to errback() nor on the Deferred debugging flag: the same "
                "reference machine is used for every errback form and with debugging on or off (the text of AlreadyCalledError, which "
                "debugging extends with creation/invocation stacks, is never inspected or logged)",
@@ -55,8 +83,65 @@ ASSUMPTIONS = ["operations are issued from outside callbacks (cancellers fire on
                "a canceller that raises: the statement does not say whether cancel() propagates the exception and leaves the Deferred "
                "unfired, or errbacks with CancelledError; both are accepted (anything else is a violation)"]
 
+# The canceller is "a callable" (Deferred.__init__): the forms an application hands over.  The last one is a callable
+# COLLECTION (a list of hooks that is itself the canceller); an empty one is a callable like any other but its truth value is
+# False.  Genuine defect of the tree as first examined, REPAIRED in /repo 6765c5e (Deferred.cancel tested `if canceller:` - a given
+# canceller whose truth value is False was never called and the Deferred was treated as canceller-less, see MUTANTS): the empty
+# collection joins the forms in this share of the runs (0.3; setting it to 0 is only for dev-time comparison).
+CANCELLER_FORMS = [("function", 6), ("method", 2), ("partial", 2), ("object", 2), ("collection", 1)]
+FALSY_CANCELLER_P = 0.3
+FALSY_CANCELLER_W = 3     # weight of "empty-collection" among CANCELLER_FORMS in those runs
+
+
 class CancellerBoom(Exception):
     pass
+
+
+class _Operation:
+    """An application object whose bound method is the canceller."""
+
+    def __init__(self, f):
+        self.f = f
+
+    def stop(self, d):
+        return self.f(d)
+
+
+class _Stopper:
+    """A callable instance."""
+
+    def __init__(self, f):
+        self.f = f
+
+    def __call__(self, d):
+        return self.f(d)
+
+
+class CancelHooks(list):
+    """A callable collection: calling it runs `first`, then every hook it holds.  Like every list it is false when empty."""
+
+    def __init__(self, first, hooks=()):
+        list.__init__(self, hooks)
+        self.first = first
+
+    def __call__(self, d):
+        self.first(d)
+        for h in self:
+            h(d)
+
+
+def canceller_in_form(form, f):
+    if form == "function":
+        return f
+    if form == "method":
+        return _Operation(f).stop
+    if form == "partial":
+        return functools.partial(lambda why, d: f(d), "user-gave-up")
+    if form == "object":
+        return _Stopper(f)
+    if form == "collection":
+        return CancelHooks(f, [lambda d: None])
+    return CancelHooks(f)      # "empty-collection"
 
 
 # The statement speaks of "a Deferred": an instance of an application-defined subclass IS one (Deferred is documented as
@@ -121,15 +206,22 @@ def run(sim):
 def _run(sim, debug):
     nops = sim.draw_weighted([(2, 1), (3, 2), (4, 3), (5, 3), (6, 3), (7, 3), (8, 3), (9, 1), (10, 1)], "nops")
     w_cancel = sim.draw_choice([3, 1, 5], "w_cancel")
+    w_chain = sim.draw_choice([2, 0, 4], "w_chain")     # weight of the chainDeferred operation (per-run knob; 0 = none)
     # which classes the Deferreds of this run are instances of (per-run knob; with "mixed" a plain Deferred waits on a
     # subclass instance and the other way round)
     classes = sim.draw_weighted([("plain", 2), ("mixed", 3), ("subclasses", 1)], "classes")
+    # the form of the canceller callables (see CANCELLER_FORMS): per-run knob "all plain functions" / any form
+    cforms = sim.draw_weighted([("function", 1), ("any", 1)], "canceller-forms")
+    falsy_run = sim.draw_bool(FALSY_CANCELLER_P, "falsy-canceller-run")
+    forms = CANCELLER_FORMS + ([("empty-collection", FALSY_CANCELLER_W)] if falsy_run else [])
     m = Interp()
     real = {}
     rlog = []
     calls = {}      # name -> real canceller call count
     klass = {}      # name -> name of the class the real Deferred is an instance of
-    st = {"cid": 0, "val": 0, "inners": 0}
+    cform = {}      # name -> form of its canceller callable (None without a canceller)
+    fed = set()     # names of the Deferreds some feeder was chained to (chainDeferred)
+    st = {"cid": 0, "val": 0, "inners": 0, "srcs": 0, "falsy": False}
     history = []
     flags = {"cancel": 0, "refire": 0, "waited": 0}
 
@@ -139,8 +231,9 @@ def _run(sim, debug):
 
     def new_deferred(name):
         kind = sim.draw_weighted([(None, 3), ("noop", 2), ("callback", 1), ("errback", 1), ("raise", 1)], "canceller")
-        cform = sim.draw_weighted(ERRBACK_FORMS, "canceller-errback-form") if kind == "errback" else None
+        eform = sim.draw_weighted(ERRBACK_FORMS, "canceller-errback-form") if kind == "errback" else None
         calls[name] = 0
+        cform[name] = None
         if kind is None:
             mc, rc = None, None
         else:
@@ -154,10 +247,12 @@ def _run(sim, debug):
                 if kind == "callback":
                     d.callback(payload)
                 elif kind == "errback":
-                    sim.probe("canceller_errback_" + cform)
-                    errback_with(d, cform, "c%d" % payload)
+                    sim.probe("canceller_errback_" + eform)
+                    errback_with(d, eform, "c%d" % payload)
                 elif kind == "raise":
                     raise CancellerBoom(name)
+            cform[name] = sim.draw_weighted(forms, "canceller-form") if cforms == "any" else "function"
+            rc = canceller_in_form(cform[name], rc)
         m.new(name, mc)
         mix = CLASS_MIX[classes]
         klass[name] = sim.draw_weighted(mix, "class") if len(mix) > 1 else mix[0][0]
@@ -185,10 +280,34 @@ def _run(sim, debug):
         real[dname].addBoth(f)
 
     outer_kind = new_deferred("outer")
-    sim.config = {"nops": nops, "outer_canceller": outer_kind, "w_cancel": w_cancel, "debug": debug, "classes": classes,
-                  "outer_class": klass["outer"]}
+    sim.config = {"nops": nops, "outer_canceller": outer_kind, "w_cancel": w_cancel, "w_chain": w_chain, "debug": debug, "classes": classes,
+                  "outer_class": klass["outer"], "canceller_forms": cforms, "falsy_canceller_run": falsy_run}
     history.append("canc=%s" % outer_kind)
     add_both("outer", ("echo",))       # recorder: sees the one result the outer delivers
+
+    def W(op):
+        # witness of a verdict: the operation kind; runs in which a canceller whose truth value is False was due are marked
+        return op + ("@falsy-canceller" if st["falsy"] else "")
+
+    def digest_notes():
+        """Count what the reference machine met during the operation just issued (probes / faults)."""
+        for note in m.notes:
+            if note[0] == "canceller":
+                f = cform[note[1]]
+                if f != "function":
+                    sim.probe("canceller_called_form_" + f)
+                if f == "empty-collection":
+                    st["falsy"] = True
+                    sim.fault("canceller_with_false_truth_value_due")
+            elif note[0] == "forward-cancel":
+                if note[2] in fed:
+                    sim.fault("cancel_forwarded_to_chain_target")
+                if note[1].startswith("src"):
+                    sim.probe("cancel_forwarded_from_feeder")
+            elif note[0] == "feed":
+                called, suppress = note[3], note[4]
+                sim.probe("feed_accepted" if not called else "feed_ignored_as_late_result" if suppress else "feed_refused_already_called")
+        del m.notes[:]
 
     def offer(name, how):
         """callback/errback on a Deferred that may or may not have fired already."""
@@ -218,11 +337,11 @@ def _run(sim, debug):
             got = "AlreadyCalledError"
         sim.event(how, form, name, v, want, got)
         if want == "AlreadyCalledError":
-            sim.check("second-result-raises", got == "AlreadyCalledError", "offer", "%s.%s [%s, debug=%s] on a fired Deferred did not raise (model: must raise)" % (name, how, form, debug))
+            sim.check("second-result-raises", got == "AlreadyCalledError", W("offer"), "%s.%s [%s, debug=%s] on a fired Deferred did not raise (model: must raise)" % (name, how, form, debug))
         elif want == "ignored":
-            sim.check("one-late-result-ignored", got == "accepted", "offer", "%s.%s [%s, debug=%s] after canceller-less cancel raised AlreadyCalledError (model: silently ignored)" % (name, how, form, debug))
+            sim.check("one-late-result-ignored", got == "accepted", W("offer"), "%s.%s [%s, debug=%s] after canceller-less cancel raised AlreadyCalledError (model: silently ignored)" % (name, how, form, debug))
         else:
-            sim.check("first-result-accepted", got == "accepted", "offer", "%s.%s [%s, debug=%s] on an unfired Deferred raised AlreadyCalledError" % (name, how, form, debug))
+            sim.check("first-result-accepted", got == "accepted", W("offer"), "%s.%s [%s, debug=%s] on an unfired Deferred raised AlreadyCalledError" % (name, how, form, debug))
 
     def cancel(name):
         md, d = m.ds[name], real[name]
@@ -237,7 +356,10 @@ def _run(sim, debug):
                 sim.probe("cancel_of_waiting_subclass_instance")
         else:
             sim.fault("cancel_fired")
-        del m.notes[:]
+        if name.startswith("src"):
+            sim.fault("cancel_feeder_unfired" if not md.called else "cancel_feeder_fired")
+        if name in fed and not md.called:
+            sim.probe("cancel_unfired_chain_target")
         try:
             m.cancel(md)
             want = "returns"
@@ -256,9 +378,9 @@ def _run(sim, debug):
                 # the other admissible reading: the exception is absorbed and the Deferred is errbacked with CancelledError
                 m.fire(m.ds[victim], CANCELLED)
             else:
-                sim.check("canceller-exception-identity", got == want, "cancel", "model %s real %s" % (want, got))
+                sim.check("canceller-exception-identity", got == want, W("cancel"), "model %s real %s" % (want, got))
         else:
-            sim.check("cancel-returns", got == "returns", "cancel", "cancel(%s) raised out of a canceller the model did not expect to raise: %s" % (name, got))
+            sim.check("cancel-returns", got == "returns", W("cancel"), "cancel(%s) raised out of a canceller the model did not expect to raise: %s" % (name, got))
 
     def add_inner():
         # the Deferred that gets the new callback: usually the outer one, sometimes an earlier inner one, so that waiting
@@ -276,14 +398,49 @@ def _run(sim, debug):
         add_both(parent, ("deferred", iname))      # callback returning the (still unfired) inner
         add_both(parent, ("echo",))                # recorder: what the parent continues with afterwards
 
+    def chain():
+        # a result provider of its own: a feeder Deferred handed to chainDeferred(), the documented shorthand for
+        # feeder.addCallbacks(target.callback, target.errback) - "any event that fires [the feeder] will also fire [the target]".
+        # The target is any Deferred of the pool (an inner one the outer waits on or will wait on, the outer, an earlier
+        # feeder); usually the feeder is new, sometimes an earlier one fans its result out to one more target (it may have
+        # fired already: the target is then fed at once).  Feeders are never returned from callbacks and only feed
+        # Deferreds created before them, so no Deferred is ever entered while one of its own callbacks executes.
+        srcs = ["src%d" % i for i in range(1, st["srcs"] + 1)]
+        inners = ["inner%d" % i for i in range(1, st["inners"] + 1)]
+        if srcs and (st["srcs"] >= 2 or sim.draw_bool(0.25, "chain-existing-feeder")):
+            sname = sim.draw_choice(srcs, "feeder")
+            kind = "again"
+            sim.probe("chain_from_earlier_feeder_fired" if m.ds[sname].called else "chain_from_earlier_feeder")
+        else:
+            st["srcs"] += 1
+            sname = "src%d" % st["srcs"]
+            kind = new_deferred(sname)
+            add_both(sname, ("echo",))                 # recorder: the feeder's one result
+        lower = [x for x in srcs if x < sname]
+        target = sim.draw_choice(inners[::-1] + ["outer"] + lower, "chain-target")
+        history.append("chain(%s:%s->%s)" % (kind, sname, target))
+        sim.event("chain", sname, kind, target, klass[sname])
+        mt = m.ds[target]
+        sim.probe("chain_target_" + ("feeder" if target in lower else "outer" if target == "outer" else "inner"))
+        sim.probe("chain_target_unfired" if not mt.called else "chain_target_fired")
+        if any(x.waiting_on is mt for x in m.ds.values()):
+            sim.probe("chain_target_is_waited_on")
+        fed.add(target)
+        m.chain(m.ds[sname], mt)
+        real[sname].chainDeferred(real[target])
+        add_both(sname, ("echo",))                     # recorder: what the feeder continues with afterwards
+
     with sim.guard("operation-raised"):
         for _ in range(nops):
             sim.step(50)
+            del m.notes[:]
             inners = ["inner%d" % i for i in range(1, st["inners"] + 1)]
+            inners += ["src%d" % i for i in range(1, st["srcs"] + 1)]     # feeders are fired / cancelled like inner ones
             op = sim.draw_weighted([("callback", 3), ("cancel", w_cancel), ("errback", 2),
                                     ("add-inner", 3 if st["inners"] < 3 else 0),
                                     ("fire-inner", 3 if inners else 0),
-                                    ("cancel-inner", 1 if inners else 0)], "op")
+                                    ("cancel-inner", 1 if inners else 0),
+                                    ("chain", w_chain)], "op")
             if op in ("callback", "errback"):
                 history.append(op)
                 offer("outer", op)
@@ -292,6 +449,8 @@ def _run(sim, debug):
                 cancel("outer")
             elif op == "add-inner":
                 add_inner()
+            elif op == "chain":
+                chain()
             else:
                 iname = sim.draw_choice(inners, "which")
                 if op == "fire-inner":
@@ -301,20 +460,21 @@ def _run(sim, debug):
                 else:
                     history.append("cancel-" + iname)
                     cancel(iname)
+            digest_notes()
             # compare everything observable with the model
-            for n in ["outer"] + inners + (["inner%d" % st["inners"]] if op == "add-inner" else []):
-                sim.check("canceller-call-count", calls[n] == m.ds[n].canceller_calls, op,
+            for n in sorted(real):
+                sim.check("canceller-call-count", calls[n] == m.ds[n].canceller_calls, W(op),
                           lambda: "canceller of %s called %d times, model %d (history %r, classes %r)" % (n, calls[n], m.ds[n].canceller_calls, history, sorted(klass.items())))
             if rlog != m.log:
                 k = 0
                 while k < len(rlog) and k < len(m.log) and rlog[k] == m.log[k]:
                     k += 1
-                sim.fail("delivered-results", op, "first difference at #%d: real %r model %r (history %r, classes %r)" % (k, rlog[k:k + 3], m.log[k:k + 3], history, sorted(klass.items())))
+                sim.fail("delivered-results", W(op), "first difference at #%d: real %r model %r (history %r, classes %r)" % (k, rlog[k:k + 3], m.log[k:k + 3], history, sorted(klass.items())))
             for n in sorted(real):
                 rv, mv = real_view(real[n]), m.ds[n].view()
                 if rv != mv:
                     field = ["called", "paused", "result", "pending"][[a == b for a, b in zip(rv, mv)].index(False)]
-                    sim.fail("state-" + field, op, "%s real %r model %r (history %r, classes %r)" % (n, rv, mv, history, sorted(klass.items())))
+                    sim.fail("state-" + field, W(op), "%s real %r model %r (history %r, classes %r)" % (n, rv, mv, history, sorted(klass.items())))
             if m.ds["outer"].waiting_on is not None:
                 flags["waited"] += 1
     if len(history) <= 9:   # canceller kind + at most 8 operations
@@ -340,6 +500,22 @@ MUTANTS = [
     "_runCallbacks recognises only an exact Deferred as a returned Deferred (`type(current.result) in _DEFERRED_SUBCLASSES` -> `is Deferred`): "
     "CAUGHT (delivered-results)",
     "__init_subclass__ registers only direct subclasses of Deferred (second-level subclass instances are then not waited on): CAUGHT (delivered-results)",
+    "round 6 (chainDeferred feeders; canceller callable forms): a forwarded cancel follows one chainDeferred link "
+    "(`self.result.cancel()` -> `(self.result._chainedTo or self.result).cancel()`): CAUGHT (canceller-call-count, cancel-returns, "
+    "canceller-exception-identity)",
+    "a canceller-less cancel() also cancels the feeder chained to the Deferred (`if self._chainedTo is not None: self._chainedTo.cancel()` "
+    "after arming the allowance): CAUGHT (canceller-call-count, cancel-returns)",
+    "only callables with a __name__ are called as cancellers (`if canceller:` -> `if canceller and hasattr(canceller, '__name__'):`): "
+    "CAUGHT (canceller-call-count)",
+    "GENUINE DEFECT of the tree as first examined, REPAIRED in /repo 6765c5e: Deferred.cancel() decided 'is there a canceller' by truth value "
+    "(`if canceller:`, defer.py cancel()): a "
+    "canceller that was given but is false as a boolean (a callable collection that is empty, any callable with __len__() == 0 or "
+    "__bool__() False) was never called, and the Deferred was handled as canceller-less (CancelledError, and the next callback/errback was "
+    "silently swallowed instead of raising AlreadyCalledError).  Witness (before the repair): class Hooks(list): __call__ = ...; d = Deferred(Hooks()); "
+    "d.cancel() -> Hooks.__call__ not called; d.callback(1) returns silently.  Signatures C03:canceller-call-count:cancel@falsy-canceller, "
+    "C03:canceller-call-count:cancel-inner@falsy-canceller (later operations of such a run may add second-result-raises / state-* "
+    "@falsy-canceller).  The precondition is let into the FALSY_CANCELLER_P = 0.3 share of the runs (0 only for dev-time comparison).  "
+    "Repair: `if canceller is not None:` (the same test in the `else` branch that arms _suppressAlreadyCalled)",
     "`or type(resultResult) in _DEFERRED_SUBCLASSES` -> `is Deferred` in _runCallbacks: SURVIVES, equivalent (a fired Deferred whose result is a "
     "Deferred is always paused, so the next operand of the `or` decides the same way)",
 ]
